@@ -26,15 +26,15 @@ FIXED_RAW_MAXIMUM = int(__import__("os").environ.get("VERIF_C07_FIXED_RAW_MAXIMU
 # 1 = `_calculate_column_widths` of a table WITHOUT columns reaches `ratio_distribute(.., [])` and its `assert total_ratio > 0`
 #     (Table(expand=True) / Table(width=10) / Table(min_width=10) raise AssertionError); 0 = `return []` at once
 #     (pending_fixes/C14-table-no-columns.diff)
-NO_COLUMNS_ASSERTS = int(__import__("os").environ.get("VERIF_C07_NO_COLUMNS_ASSERTS", "1"))
+NO_COLUMNS_ASSERTS = int(__import__("os").environ.get("VERIF_C07_NO_COLUMNS_ASSERTS", "0"))
 # 1 = flexible widths are used as ratio_distribute returns them (a trailing ratio=0 column gets what is left: negative when there
 #     is no room, so widths can be negative / sum to 0 and the final ratio_distribute asserts); 0 = clamped with max(0, width)
 #     (pending_fixes/C14-table-flexible-width-nonnegative.diff)
-FLEX_NEGATIVE = int(__import__("os").environ.get("VERIF_C07_FLEX_NEGATIVE", "1"))
+FLEX_NEGATIVE = int(__import__("os").environ.get("VERIF_C07_FLEX_NEGATIVE", "0"))
 # 1 = `table_width` is not recomputed after the collapse block re-measures the columns, so an expanding table whose columns shrank
 #     on the re-measure is never padded back to max_width; 0 = `table_width = sum(widths)` after the re-measure
 #     (pending_fixes/C07-table-expand-stale-width.diff)
-STALE_TABLE_WIDTH = int(__import__("os").environ.get("VERIF_C07_STALE_TABLE_WIDTH", "1"))
+STALE_TABLE_WIDTH = int(__import__("os").environ.get("VERIF_C07_STALE_TABLE_WIDTH", "0"))
 FLAGS = (LEADING_REPEAT, MIN_WIDTH_CAPS_EXPAND, FIXED_RAW_MAXIMUM, NO_COLUMNS_ASSERTS, FLEX_NEGATIVE, STALE_TABLE_WIDTH)
 
 BOXES = [None, "HEAVY_HEAD", "CUSTOM", "ASCII", "SQUARE", "MINIMAL", "SIMPLE", "ROUNDED", "DOUBLE_EDGE", "HORIZONTALS", "SIMPLE_HEAVY",
